@@ -120,6 +120,18 @@ pub fn case(tape: &[u32]) -> CaseOutcome {
         // a file that parses but breaks a static rule in a place execution never reaches
         dsl.push_str(*t.pick(&["\n(module) @unused_capture_here {\n}\n", "\n(module) @_mm {\n  if #false {\n    print nowhere_defined\n  }\n}\n", "\n(module) @_mm {\n  let once = 1\n  if #false {\n    set once = 2\n  }\n}\n"]));
     }
+    let mut declared: Vec<String> = g.prog.globals().iter().map(|x| x.0.to_string()).collect();
+    if t.chance(1, 12) {
+        // a file of declarations only: nothing runs, the globals are checked all the same
+        let (text, names): (&str, &[&str]) = *t.pick(&[
+            ("global needed\n", &["needed"][..]),
+            ("global xs*\n", &["xs"][..]),
+            ("global opt?\nglobal dflt = \"x\"\n", &["opt", "dflt"][..]),
+            ("global a\nglobal b+\n", &["a", "b"][..]),
+        ]);
+        dsl = text.to_string();
+        declared = names.iter().map(|s| s.to_string()).collect();
+    }
     let mut source = pysrc::gen_source(&mut t);
     if t.chance(1, 4) {
         let k = 1 + t.choose(2);
@@ -130,9 +142,9 @@ pub fn case(tape: &[u32]) -> CaseOutcome {
     }
     // every declared global gets a string value most of the time
     let mut globals: Vec<(String, String)> = vec![];
-    for (name, _, _) in g.prog.globals() {
+    for name in &declared {
         if t.chance(5, 6) {
-            globals.push((name.to_string(), t.pick(&["", "a", "foo/bar.py", "k=v", "a b", "é", "x=y=z", "=", "a,b", ",", "x, y=z", "-v", "--json", "'q'", "\"dq\"", "a\nb", "{}", "$HOME"]).to_string()));
+            globals.push((name.to_string(), t.pick(&["", "a", "foo/bar.py", "k=v", "a b", "é", "x=y=z", "=", "a,b", ",", "x, y=z", "-v", "--json", "'q'", "\"dq\"", "a\nb", "{}", "$HOME", " lead", "trail ", "  ", "\tx\t"]).to_string()));
         }
     }
     if t.chance(1, 10) {
